@@ -6,7 +6,7 @@ Require Import ExtrOcamlBasic WorldCheck.
 Require Import Base Fixed Panic Curve Bank BankOps Risk Handlers TransferFee XrateConsts Xrate Price ConfigGen Config Emode ConfigPaths ConfigHealth PrivGen Privilege Deleverage AnchorTypes AnchorSem Gate AccountsTable HandlerFacts Spec AuthCell AuthFixture TxConstants Tx TxToy AcctLifecycle RiskFeed Payout.
 Extraction Language OCaml.
 Separate Extraction
-  pay_step pay_run tok_amt mkPayW MINT_BANK MINT_EM
+  pay_step pay_run tok_amt mkPayW MINT_BANK MINT_EM pay_fixture pay_obs pay_trace
   p_pause p_unpause p_unpause_if_expired p_is_expired p_can_pause c_is_expired ix_propagate
   ix_panic_pause ix_panic_unpause ix_panic_unpause_permissionless is_protocol_paused mkP
   ir_validate calc_interest_rate mpc legacy_curve
